@@ -80,9 +80,10 @@ def op (d : Sched) (ws : List String) : String × Sched :=
   match ws with
   | "cfg" :: w :: m :: _ =>
     match w.toNat? with
-    | some w => ("ok", { s := init w (m == "c") })
+    | some w => if d.cfgd then ("bad-op", d) else ("ok", { s := init w (m == "c"), cfgd := true })
     | none => ("bad-op", d)
   | "d" :: t :: susp :: out :: _ =>
+    if !d.cfgd then ("no-dispatcher", d) else
     match t.toNat?, parseOut out with
     | some t, some (o, bomb) =>
       let d := d.fire (.dispatch 0 t ⟨parseSusp susp, o⟩)
@@ -90,6 +91,7 @@ def op (d : Sched) (ws : List String) : String × Sched :=
       (if d.s.accepted.contains t then "acc" else "rej", d)
     | _, _ => ("bad-op", d)
   | ["b", t, out] =>
+    if !d.cfgd then ("no-dispatcher", d) else
     match t.toNat?, parseOut out with
     | some t, some (o, _) =>
       let d := d.fire (.dispatchBlocking 0 t ⟨0, o⟩ true)
@@ -97,16 +99,20 @@ def op (d : Sched) (ws : List String) : String × Sched :=
     | _, _ => ("bad-op", d)
   | ["drop", t] =>
     match t.toNat? with
-    | some t => ("ok", d.fire (.rxDrop t))
+    | some t =>
+      if d.s.chan t == .none || d.s.chan t == .closed || d.taken.contains t then ("bad-op", d)
+      else ("ok", { d.fire (.rxDrop t) with taken := t :: d.taken })
     | none => ("bad-op", d)
   | ["wait", t] =>
     match t.toNat? with
-    | some t => let d := d.settleAll; (showChan (d.s.chan t), d)
+    | some t => let d := d.settleAll; (showChan (d.s.chan t), { d with taken := t :: d.taken })
     | none => ("bad-op", d)
-  | ["join"] => let d := d.joinAll; (showJoined d.s.joined, d)
+  | ["join"] =>
+    if !d.cfgd || !d.s.sender then ("no-dispatcher", d) else
+    let d := d.joinAll; (showJoined d.s.joined, d)
   | ["rx", t] =>
     match t.toNat? with
-    | some t => let d := d.settleAll; (showChan (d.s.chan t), d)
+    | some t => let d := d.settleAll; (showChan (d.s.chan t), { d with taken := t :: d.taken })
     | none => ("bad-op", d)
   | ["stat", t] =>
     match t.toNat? with
